@@ -935,7 +935,16 @@ impl<S: SchedSpec> Subject for Sched<S> {
                 break;
             }
             ctx.journal(&name, &|| json!({"choices": prefix}));
-            let r = run_one(&self.0, &prefix);
+            let mut r = run_one(&self.0, &prefix);
+            // an execution that ran out of its wall limit although no thread was found blocked (all runnable: a loaded
+            // machine can starve a shard for that long) is the same deterministic schedule when run again: retry it
+            // twice before giving up; the error is reported only if it persists
+            let mut retries = 0;
+            while retries < 2 && r.failure.is_none() && r.machinery.as_deref().map(|m| m.starts_with("execution wedged (") && m.contains("any_wedged false")).unwrap_or(false) {
+                retries += 1;
+                std::thread::sleep(Duration::from_millis(500));
+                r = run_one(&self.0, &prefix);
+            }
             if let Some(m) = &r.machinery {
                 ctx.machinery_error(format!("{name}: {m} (choices {:?})", prefix));
                 if m.contains("wedged") {
